@@ -3,7 +3,8 @@
 (* harness runs every chain on every text.                                                       *)
 (*  Mode = "texts"    (model checking): every text of at most MaxLen code points over the first  *)
 (*                    NA classes of Tokens!ClassAlphabet;                                        *)
-(*  Mode = "random"   (-simulate): texts of 6..60 code points over the whole alphabet;           *)
+(*  Mode = "random"   (-simulate): texts of 6..40 code points over the whole alphabet;           *)
+(*  Mode = "long"     (-simulate): texts of 150..400 code points;                                 *)
 (*  Mode = "snippets" (-simulate): text x snippet chain x terms x max_num_chars (never smaller    *)
 (*                    than the longest token: that is the recorded finding F12);                  *)
 (*  Mode = "big"      (model checking): run-length texts of up to a million bytes.               *)
@@ -53,17 +54,24 @@ Extend ==
 
 R(r, k) == r[((k - 1) % Len(r)) + 1]
 RandomText(r, n) == [x \in 1..n |-> ClassAlphabet[1 + ((R(r, x) + (x * R(r, x + 7))) % Len(ClassAlphabet))]]
-Vec == <<Pick(0..10079), Pick(0..10079), Pick(0..10079), Pick(0..10079), Pick(0..10079), Pick(0..10079), Pick(0..10079),
+\* (an operator with a parameter: TLC evaluates a constant definition once and would reuse the vector)
+Vec(x) == <<Pick(x..10079), Pick(0..10079), Pick(0..10079), Pick(0..10079), Pick(0..10079), Pick(0..10079), Pick(0..10079),
          Pick(0..10079), Pick(0..10079), Pick(0..10079), Pick(0..10079), Pick(0..10079), Pick(0..10079), Pick(0..10079),
          Pick(0..10079), Pick(0..10079), Pick(0..10079), Pick(0..10079), Pick(0..10079), Pick(0..10079), Pick(0..10079)>>
 NewRandom ==
   /\ Mode = "random" /\ ~done
-  /\ \E r \in {Vec} : PrintT(<<"T", RandomText(r, 6 + (r[1] % 55))>>)
+  /\ \E r \in {Vec(0)} : PrintT(<<"T", RandomText(r, 6 + (r[1] % 35))>>)
+  /\ done' = TRUE /\ UNCHANGED text
+
+\* Mode = "long" (-simulate): texts of 150..400 code points
+NewLongText ==
+  /\ Mode = "long" /\ ~done
+  /\ \E r \in {Vec(0)} : PrintT(<<"T", RandomText(r, 150 + (r[1] % 250))>>)
   /\ done' = TRUE /\ UNCHANGED text
 
 NewSnippet ==
   /\ Mode = "snippets" /\ ~done
-  /\ \E r \in {Vec} :
+  /\ \E r \in {Vec(0)} :
        LET t == RandomText(r, 1 + (r[1] % 9))
            ci == (<<6, 7, 12, 15, 18, 19, 6, 18>>)[1 + (r[2] % 8)]
            exactChain == IF ci = 19 THEN 6 ELSE ci
@@ -85,6 +93,6 @@ NewBig ==
   /\ \A b \in 1..Len(BigTexts) : \A c \in BigChains : PrintT(<<"BIG", ToJson([runs |-> BigTexts[b], chain |-> c])>>)
   /\ done' = TRUE /\ UNCHANGED text
 
-GNext == Extend \/ NewRandom \/ NewSnippet \/ NewBig
+GNext == Extend \/ NewRandom \/ NewLongText \/ NewSnippet \/ NewBig
 GSpec == GInit /\ [][GNext]_gvars
 =============================================================================
